@@ -377,6 +377,37 @@ def run(prop, tier, seed, replay=None):
             c["id"] = i
     t0 = time.time()
     files, lost = run_concdrv(bindir, upath, cases, wd, fpath, shards=min(12, C.NCPU))
+    if not replay:
+        # a second universe: one store call that updates the indexes many times (a deletion request with 132 targets, the
+        # first and the last one stored) watched by a query that names the first and the last target
+        import itertools
+        u2path = S.universe_path("c14b")
+        wd2 = os.path.join(wd, "c14b")
+        os.makedirs(wd2, exist_ok=True)
+        f2 = os.path.join(wd2, "filters.json")
+        json.dump([F.flt(ids=[1, 2]), F.flt(authors=[2]), F.flt(ids=[2, 1, 3])], open(f2, "w"))
+        ops2 = [dict(prefix=[{"k": "store", "a": 1}, {"k": "store", "a": 2}],
+                     threads=[{"k": "store", "a": 3}, {"k": "query", "f": 0}, {"k": "query", "f": 2}]),
+                dict(prefix=[{"k": "store", "a": 1}, {"k": "store", "a": 2}],
+                     threads=[{"k": "store", "a": 3}, {"k": "store", "a": 4}, {"k": "query", "f": 1}])]
+        cases2 = []
+        for rc in ops2:
+            n = len(rc["threads"])
+            # the request passes one yield point per target: pause it after every one of them
+            for k in range(1, 161, 1 if tier == "thorough" else 2):
+                for order in itertools.permutations([2, 3]):
+                    sc = [dict(t=1, p="next") for _ in range(k)] + [dict(t=o, p="end") for o in order] + [dict(t=1, p="end")]
+                    cases2.append(dict(prefix=rc["prefix"], threads=rc["threads"], sched=sc, mode="sched", rounds=1, menu="bigreq-pause"))
+            for _ in range(20 if tier == "quick" else 300):
+                sc = [dict(t=1, p="next") for _ in range(rnd.randint(0, 150))] + [dict(t=rnd.randint(1, n), p="next") for _ in range(rnd.randint(5, 60))]
+                cases2.append(dict(prefix=rc["prefix"], threads=rc["threads"], sched=sc, mode="sched", rounds=1, menu="bigreq-fine"))
+            cases2.append(dict(prefix=rc["prefix"], threads=rc["threads"], mode="free", rounds=300 if tier == "quick" else 3000, sched=[]))
+        for i, c in enumerate(cases2):
+            c["id"] = len(cases) + i
+        fl2, lost2 = run_concdrv(bindir, u2path, cases2, wd2, f2, shards=min(6, C.NCPU))
+        files += fl2
+        lost += lost2
+        cases = cases + cases2
     t1 = time.time()
     rejected = []
     with cf.ThreadPoolExecutor(max_workers=min(8, C.NCPU)) as ex:
